@@ -2,12 +2,14 @@ package qa
 
 import (
 	"bytes"
+	"errors"
 	"fmt"
 	"sort"
 	"strings"
 
 	"golang.org/x/net/idna"
 
+	"github.com/foxcpp/maddy/framework/exterrors"
 	"github.com/foxcpp/maddy/internal/verifsim/actors"
 	"github.com/foxcpp/maddy/internal/verifsim/simrt"
 )
@@ -50,6 +52,7 @@ type rcptAttempt struct {
 	tx        *actors.TxRecord
 	presented bool
 	set       []actors.Outcome // attributable failures in this attempt
+	stages    []string         // where each of them happened (MkErr's "where")
 	delivered bool
 }
 
@@ -84,6 +87,7 @@ func attempt(tx *actors.TxRecord, r string) rcptAttempt {
 	a := rcptAttempt{tx: tx}
 	if !tx.Started {
 		a.set = []actors.Outcome{tx.StartRes}
+		a.stages = []string{"start"}
 		return a
 	}
 	if !contains(tx.Rcpts, r) {
@@ -92,19 +96,22 @@ func attempt(tx *actors.TxRecord, r string) rcptAttempt {
 	a.presented = true
 	if tx.RcptRes[r] != actors.OK {
 		a.set = []actors.Outcome{tx.RcptRes[r]}
+		a.stages = []string{"rcpt"}
 		return a
 	}
 	if tx.BodyCall {
-		b := tx.BodyRes
+		b, where := tx.BodyRes, "body"
 		if tx.Partial {
-			b = tx.Statuses[r]
+			b, where = tx.Statuses[r], "status"
 		}
 		if b != actors.OK {
 			a.set = append(a.set, b)
+			a.stages = append(a.stages, where)
 		}
 	}
 	if tx.Commits > 0 && tx.CommitRes != actors.OK {
 		a.set = append(a.set, tx.CommitRes)
+		a.stages = append(a.stages, "commit")
 	}
 	a.delivered = tx.Delivered(r)
 	return a
@@ -762,6 +769,20 @@ func (w *World) oracleReports() {
 			}
 			if !ok {
 				s.Violate("C18/status-mismatch", "report dsn%d: %s has Status %s but its failures in that attempt were %v", tx.N, x.Addr, x.Status, a.set)
+			}
+			// ... and, when the one failure of r in that attempt carried SMTP
+			// codes, these are the codes the report gives ("last status codes")
+			if len(a.set) == 1 && len(a.stages) == 1 {
+				var se *exterrors.SMTPError
+				if errors.As(actors.MkErr(a.set[0], at.Plan.Var, a.stages[0]), &se) {
+					want := fmt.Sprintf("%d.%d.%d", se.EnhancedCode[0], se.EnhancedCode[1], se.EnhancedCode[2])
+					if x.Status != want {
+						s.Violate("C18/status-code-lost", "report dsn%d: %s failed with %d %s at %s, the report says Status %s (Diagnostic-Code %q)", tx.N, x.Addr, se.Code, want, a.stages[0], x.Status, x.Diagnostic)
+					}
+					if f := strings.Fields(x.Diagnostic); len(f) >= 3 && f[0] == "smtp;" && (f[1] != fmt.Sprint(se.Code) || f[2] != want) {
+						s.Violate("C18/status-code-lost", "report dsn%d: %s failed with %d %s at %s, the report's Diagnostic-Code is %q", tx.N, x.Addr, se.Code, want, a.stages[0], x.Diagnostic)
+					}
+				}
 			}
 			if x.Diagnostic != "" {
 				f := strings.Fields(x.Diagnostic)
